@@ -59,6 +59,15 @@ theorem C10_skip2_returns_after_endif (body : Items ε β) (ps : Parts ε β) (r
     skipFrom 1 (body.flatten ++ (ps.flatten ++ rest)) = skipFrom 0 rest := by
   rw [skipFrom_items body 1, skipFrom_parts ps 0]
 
+/-- **C10 (the skip functions as written).**  `skipFrom`, the function the machine's skip modes and
+    the lemmas above are about, is `skip_cond_incl` as it is written in C – a loop that calls the
+    recursive `skip_cond_incl2` for a nested #if-kind line – for any fuel ≥ the number of lines. -/
+theorem C10_skip_transcription (f : Nat) (ls : List (Line ε β)) (h : ls.length ≤ f) :
+    skipCondIncl ls = skipCondInclC f ls ∧ ∀ d, skipFrom (d+1) ls = skipFrom d (skipCondIncl2C f ls) :=
+  ⟨skipCondIncl_eq_C f ls h, fun d => skipFrom_succ_eq f ls d h⟩
+
+example : ([.opens (.ifE true), .plain (.text ["a"]), .endif false, .part (.els false), .plain (.text ["b"])] : List (Line Bool Unit)).length ≤ 5 := by decide
+
 /-- the skip modes of the machine are these two functions -/
 theorem C10_skip_modes (ev : ε → Defs β → Except Diag Bool) (ls : List (Line ε β)) (d : Nat) (s : St β) :
     finish (run ev ls (.skip d) s) = finish (run ev (skipFrom d ls) .proc s) :=
